@@ -94,6 +94,15 @@ def build_index(gaf_path, gfa_path, out, via="api"):
     from gaftools.cli import index
 
     if via != "api":
+        # through the command line, with paths relative to the working directory (a bare file name for -o)
+        d_ = os.path.dirname(out)
+        if d_ and os.path.dirname(gaf_path) == d_ and os.path.dirname(gfa_path) == d_:
+            cwd = os.getcwd()
+            os.chdir(d_)
+            try:
+                return core.cli(["index", os.path.basename(gaf_path), os.path.basename(gfa_path), "-o", os.path.basename(out)])
+            finally:
+                os.chdir(cwd)
         return core.cli(["index", gaf_path, gfa_path, "-o", out])
     return core.call(index.run, gaf_path, gfa_path, out)
 
